@@ -23,7 +23,8 @@ type Obligation struct {
 	Pos    string   `json:"pos,omitempty"`
 	Text   string   `json:"text,omitempty"`
 	mark   int
-	cond   T // satisfiable <=> obligation violated
+	cond   T   // satisfiable <=> obligation violated
+	parts  []T // when set: one query per part (e.g. per return path); all must be unsat
 	sc     *Script
 	Result string  `json:"result"` // discharged | failed | unknown
 	Solver string  `json:"solver,omitempty"`
@@ -67,6 +68,8 @@ type Ctx struct {
 	sentinels   []T
 	loopInfos   map[string]*loopInfo
 	replay      *replayInfo
+	keyLeaf     map[string]Leaf
+	witnesses   map[string]T
 }
 
 type closure struct {
@@ -124,7 +127,7 @@ type edgeInB struct {
 func newCtx(P *Program, prop string) *Ctx {
 	c := &Ctx{P: P, sc: newScript(), heapSort: map[string]string{}, pseudoKinds: map[string]int{}, factsDone: map[string]bool{},
 		iterSort: map[iterKey]string{}, lits: map[string]string{}, prop: prop, trusted: map[string]bool{}, closures: map[T]*closure{},
-		callOrd: map[string]int{}, oblNames: map[string]int{}, loopInfos: map[string]*loopInfo{}}
+		callOrd: map[string]int{}, oblNames: map[string]int{}, loopInfos: map[string]*loopInfo{}, keyLeaf: map[string]Leaf{}, witnesses: map[string]T{}}
 	c.sc.raw(prelude)
 	return c
 }
@@ -167,6 +170,58 @@ func (c *Ctx) oblige(kind, name string, tags []string, reach, goal T, pos token.
 	// proved (or reported) once: later code may rely on it
 	c.sc.assume(imp(reach, goal))
 	return o
+}
+
+// obligeParts: one named obligation decided by several queries (one per
+// return path); reaches[i] /\ not goals[i] must all be unsatisfiable.
+func (c *Ctx) obligeParts(kind, name string, tags []string, reaches, goals []T, pos token.Pos, text string) {
+	full := name
+	c.oblNames[full]++
+	if n := c.oblNames[full]; n > 1 {
+		full = fmt.Sprintf("%s~%d", name, n)
+	}
+	oname := full
+	wts := make([]T, 0)
+	for _, f := range c.findings {
+		if f.Function == c.fnKey && f.Obligation == full {
+			w, err := parseSpecExpr(f.When)
+			if err != nil {
+				panic(specErr{"known finding " + f.ID + ": " + err.Error()})
+			}
+			env := c.entryEnv()
+			env.at = "known finding " + f.ID
+			wt := env.evalBool(w)
+			o := &Obligation{Fn: c.fnKey, Name: full + "|finding:" + f.ID, Kind: kind, Tags: tags, Pos: c.P.pos(pos), Text: text,
+				sc: c.sc, Canary: true, Finding: f.ID, replay: c.replay}
+			for i := range goals {
+				o.parts = append(o.parts, and(reaches[i], wt, not(goals[i])))
+			}
+			o.mark = c.sc.mark()
+			c.obls = append(c.obls, o)
+			wts = append(wts, wt)
+			oname = oname + "|not:" + f.ID
+		}
+	}
+	o := &Obligation{Fn: c.fnKey, Name: oname, Kind: kind, Tags: tags, Pos: c.P.pos(pos), Text: text, sc: c.sc, replay: c.replay}
+	trivial := true
+	for i := range goals {
+		r := reaches[i]
+		for _, wt := range wts {
+			r = and(r, not(wt))
+		}
+		if goals[i] != "true" {
+			trivial = false
+		}
+		o.parts = append(o.parts, and(r, not(goals[i])))
+	}
+	if trivial {
+		return
+	}
+	o.mark = c.sc.mark()
+	c.obls = append(c.obls, o)
+	for i := range goals {
+		c.sc.assume(imp(reaches[i], goals[i]))
+	}
 }
 
 // entryEnv: specification environment over the entry state of the function
@@ -320,6 +375,11 @@ func loopBody(h *ssa.BasicBlock) map[*ssa.BasicBlock]bool {
 // execBody runs fr.fn from state st under path condition reach and returns the
 // merged exit state, the exit condition and the result tuple.
 func (c *Ctx) execBody(fr *Frame, st *State, reach T) (*State, T, Val) {
+	out, r, v, _ := c.execBodyEdges(fr, st, reach)
+	return out, r, v
+}
+
+func (c *Ctx) execBodyEdges(fr *Frame, st *State, reach T) (*State, T, Val, []retEdge) {
 	fn := fr.fn
 	if len(fn.Blocks) == 0 {
 		panic(unsupported("function without body: " + funcKey(fn)))
@@ -389,7 +449,7 @@ func (c *Ctx) execBody(fr *Frame, st *State, reach T) (*State, T, Val) {
 	}
 	if len(rets) == 0 {
 		// no normal return (all paths panic)
-		return st, "false", zeroVal(fn.Signature.Results())
+		return st, "false", zeroVal(fn.Signature.Results()), nil
 	}
 	var es []edgeIn
 	var cs []T
@@ -404,7 +464,7 @@ func (c *Ctx) execBody(fr *Frame, st *State, reach T) (*State, T, Val) {
 	if len(vals) > 1 && len(res.L) > 0 {
 		res = c.mergeVals(fmt.Sprintf("ret.f%d", fr.id), es, vals)
 	}
-	return out, c.sc.def(fmt.Sprintf("exit.f%d", fr.id), sBool, or(cs...)), res
+	return out, c.sc.def(fmt.Sprintf("exit.f%d", fr.id), sBool, or(cs...)), res, rets
 }
 
 func (c *Ctx) pushEdge(fr *Frame, ins map[*ssa.BasicBlock][]edgeInB, from, to *ssa.BasicBlock, cond T, st *State, loops interface{}) {
@@ -456,6 +516,7 @@ func (c *Ctx) loopEnv(fr *Frame, h *ssa.BasicBlock, st *State) *Env {
 	e := c.specEnv(fr, st)
 	// entry values of the formals are reachable through old(x); plain x means
 	// the current value of the variable
+	e.params = e.vars
 	e.vars = map[string]Val{}
 	e.old = c.entry
 	// range index: number of completed iterations
@@ -528,9 +589,9 @@ func (c *Ctx) enterLoop(fr *Frame, h *ssa.BasicBlock, ord int, st *State, reach 
 			locs = append(locs, me.designator(d)...)
 		}
 	}
-	c.havoc(cur, locs)
 	ntop := c.sc.fresh("top", sInt)
 	c.sc.assume(ge(ntop, st.top))
+	c.havoc(cur, locs, ntop)
 	cur.top = ntop
 	// type facts of havocked locals relative to the new frontier
 	for k, v := range cur.locals {
@@ -583,7 +644,7 @@ func (c *Ctx) evalClause(env *Env, cl *Clause) (g T) {
 
 // ---- havoc and frames ----
 
-func (c *Ctx) havoc(st *State, locs []ModLoc) {
+func (c *Ctx) havoc(st *State, locs []ModLoc, ntop T) {
 	for _, m := range locs {
 		if m.Glob {
 			if strings.HasPrefix(m.Key, "ghost:") {
@@ -596,12 +657,31 @@ func (c *Ctx) havoc(st *State, locs []ModLoc) {
 		}
 		h := c.heapGet(st, m.Key, m.Sort)
 		_, inner := innerSort(m.Sort)
+		l, known := c.keyLeaf[m.Key]
+		if !known {
+			l = m.Leaf
+			known = m.HasLeaf
+		}
 		if m.HasIdx {
 			_, leaf := innerSort(inner)
 			v := c.sc.fresh("hv."+smtSym(m.Key), leaf)
+			if known {
+				c.sc.assume(c.leafFact(l, v, ntop))
+			}
 			c.heapSet(st, m.Key, m.Sort, sto(h, m.Ref, sto(sel(h, m.Ref), m.Idx, v)))
 		} else {
 			v := c.sc.fresh("hv."+smtSym(m.Key), inner)
+			if known {
+				if strings.HasPrefix(inner, "(Array") {
+					ks, _ := innerSort(inner)
+					x := "(select " + v + " i)"
+					if f := c.leafFact(l, x, ntop); f != "true" {
+						c.sc.assume(fmt.Sprintf("(forall ((i %s)) (! %s :pattern (%s)))", ks, f, x))
+					}
+				} else {
+					c.sc.assume(c.leafFact(l, v, ntop))
+				}
+			}
 			c.heapSet(st, m.Key, m.Sort, sto(h, m.Ref, v))
 		}
 	}
@@ -940,3 +1020,4 @@ func (c *Ctx) entryTopOrZero() T {
 	}
 	return ""
 }
+
